@@ -2,7 +2,7 @@
 """run_seeded.py [seed_id ...]  — applies each seeded patch to /repo, runs the quick check of its property
 (and optionally of extra properties), undoes it; prints caught / MISSED."""
 import json, os, subprocess, sys, time
-ids = sys.argv[1:] or sorted(os.listdir("/verif/seeded"))
+ids = sys.argv[1:] or sorted(d for d in os.listdir("/verif/seeded") if os.path.isdir(f"/verif/seeded/{d}"))
 res = {}
 assert subprocess.run("git -C /repo status --short", shell=True, capture_output=True, text=True).stdout.strip() == "", "/repo not clean"
 for sid in ids:
